@@ -114,7 +114,10 @@ func (s *scLife) Configure(w *World) {
 		// closed loop: the checkpoint documents live in the streamed bucket, every checkpoint write comes back
 		// as a mutation; several groups may share the bucket; the workload is rich in reserved-prefix keys
 		c.MetaBucket, c.Metadata = c.Bucket, "couchbase"
-		c.Faults = false
+		c.Faults = t.Draw(3, nil) == 0
+		if c.Faults {
+			c.W.ReplyErr = 2 // checkpoint writes answered with an error status: failed saves in the closed loop
+		}
 		c.KeyClassW = []int{6, 4, 3, 2}
 		c.W.Crash = 0
 		s.maxRest = 0
@@ -181,7 +184,25 @@ func (s *scLife) MayDrop(w *World, c *Conn) bool {
 	return false
 }
 
+var lifecycleCallbacks = []string{"BeforeStreamStart", "AfterStreamStart", "BeforeStreamStop", "AfterStreamStop", "BeforeRebalanceStart", "AfterRebalanceStart", "BeforeRebalanceEnd", "AfterRebalanceEnd"}
+
+// drawHookScrapes: in a third of the C16 runs the application scrapes from inside some lifecycle callbacks.
+func drawHookScrapes(w *World, m *Member) {
+	if w.tape.Draw(3, nil) != 0 {
+		return
+	}
+	m.hookScrape = map[string]bool{}
+	for _, cb := range lifecycleCallbacks {
+		if w.tape.Draw(3, nil) == 0 {
+			m.hookScrape[cb] = true
+		}
+	}
+}
+
 func (s *scLife) TuneMember(w *World, m *Member) {
+	if s.prop == "C16" {
+		drawHookScrapes(w, m)
+	}
 	if s.prop == "C14" && m.id <= len(s.groups) {
 		m.cfg.Dcp.Group.Name = s.groups[m.id-1]
 	}
